@@ -37,22 +37,36 @@ def _args():
                 rules=[("assignment", {"equation": "C = A + B"}, "repeated")], initial_condition_dict={"A": 3, "B": 4})
 
 
-def _mk(interp, kind, **kw):
+def _mk(interp, kind, staged=False, **kw):
+    """the model definition, built at once - or (staged) in two stages with an initialisation in between"""
     T = interp.load("bioscrape.types")
     args = _args()
     args.update(kw)
+    later_rx, later_rules = [], []
+    if staged:
+        later_rx, later_rules = args["reactions"][1:], args["rules"]
+        args["reactions"], args["rules"] = args["reactions"][:1], []
     if kind == "lineage":
         L = interp.load("bioscrape.lineage")
         M = L.ns["LineageModel"](initialize_model=False, **args)
         vs = L.ns["LineageVolumeSplitter"](M, options={"B": "duplicate"})
         M.create_volume_rule("ode", {"equation": "volume*k1"})
+        M.create_volume_event("linear volume", {"growth_rate": 0.1}, "massaction", {"k": 0.2, "species": "A"})
+        if staged:
+            M.py_initialize()
         M.create_division_rule("deltaV", {"threshold": 1.0}, vs)
         M.create_death_rule("species", {"specie": "A", "comp": ">", "threshold": 50})
-        M.create_volume_event("linear volume", {"growth_rate": 0.1}, "massaction", {"k": 0.2, "species": "A"})
         M.create_division_event("division", {}, "massaction", {"k": 0.01, "species": "B"}, vs)
         M.create_death_event("death", {}, "massaction", {"k": 0.1, "species": "C"})
-        return M
-    return T.ns["Model"](initialize_model=False, **args)
+    else:
+        M = T.ns["Model"](initialize_model=False, **args)
+        if staged:
+            M.py_initialize()
+    for rx in later_rx:
+        M.create_reaction(*rx)
+    for ru in later_rules:
+        M.create_rule(*ru)
+    return M
 
 
 PREFIX = {"c_volume_rules": "num_volume_rules", "c_death_rules": "num_death_rules", "c_division_rules": "num_division_rules",
@@ -89,9 +103,11 @@ def init_job(interp, c, case):
     A = _mk(interp, kind)
     A.py_initialize()
     ref = _derived(A, kind)
-    B = _mk(interp, kind)
+    B = _mk(interp, kind, staged=(how == "staged"))
     f = B.__dict__["_f"]
-    if how == "stale":
+    if how == "staged":
+        B.py_initialize()
+    elif how == "stale":
         junk = object()
         for n in ("c_propensities", "c_delays", "c_repeat_rules"):
             f[n] = CVector([junk, junk, junk, junk, junk])
@@ -117,6 +133,19 @@ def init_job(interp, c, case):
                        "what": "%s/%s derived state differs in %s" % (kind, how, diff)})
     if ok is False:
         c.failures[-1]["replay"] = {"kind": "reinit", "which": kind, "how": how}
+    if kind == "lineage":
+        # what the lineage interface reads (the first num_* entries of each vector) are the objects of the definition lists
+        want = {"c_lineage_propensities": [x[1] for x in f["volume_events_list"]] + [x[1] for x in f["division_events_list"]]
+                + [x[1] for x in f["death_events_list"]],
+                "c_volume_events": [x[0] for x in f["volume_events_list"]], "c_division_events": [x[0] for x in f["division_events_list"]],
+                "c_death_events": [x[0] for x in f["death_events_list"]], "c_volume_rules": list(f["volume_rules"]),
+                "c_death_rules": list(f["death_rules"]), "c_division_rules": [x[0] for x in f["division_rules_list"]]}
+        bad = [n for n, w in want.items() if not (len(f[n]) >= len(w) and all(a is b for a, b in zip(list(f[n]), w)))]
+        ok = c.prove(not bad, "lineage model, initialisation %s: the entries the lineage interface reads from each C-level vector are the "
+                              "objects of the model's definition lists, in order (wrong: %s)" % (how, bad),
+                     info={"sig": "lineage vectors out of step with the definition after %s: %s" % (how, bad), "what": "lineage/%s %s" % (how, bad)})
+        if ok is False:
+            c.failures[-1]["replay"] = {"kind": "reinit", "which": kind, "how": how}
 
 
 def edit_job(interp, c, case):
@@ -324,7 +353,7 @@ def check(tier):
     from . import C05
     ck = Check("C08", "model_checking", tier)
     for kind in ("plain", "lineage"):
-        for how in ("stale", "twice", "edit"):
+        for how in ("stale", "twice", "edit", "staged"):
             if kind == "lineage" and how == "stale":
                 continue
             ck.add("init/%s/%s" % (kind, how), "harness.C08", "init_job", dict(cases=[(kind, how)]), fresh=True)
@@ -336,7 +365,7 @@ def check(tier):
         ck.add("reseed/%s" % smp, "harness.C08", "reseed_job", dict(cases=[(12345, smp)]), fresh=True, exact=True)
     # loops do not write the model
     for cse in C05.cases("quick"):
-        ck.add("ssa-step/S%dR%dT%d/ci%d" % cse, "harness.C05", "step_job", dict(cases=[cse], rules=True))
+        ck.add("ssa-step/S%dR%dT%d/ci%d" % cse, "harness.C05", "step_job", dict(cases=[cse], rules=True, facets=["model-untouched", "init"]))
     F = ["model-untouched", "init"]
     ck.add("delay-step", "harness.steps", "delay_step", dict(cases=[(2, 2, 2, 0, 2, 0), (2, 2, 2, 1, 2, 1)], facets=F, rules=True))
     ck.add("volume-step", "harness.steps", "volume_step", dict(cases=[(2, 2, 2, 0), (2, 2, 2, 1)], facets=F, rules=True))
@@ -364,7 +393,7 @@ def check(tier):
         elif w == "edit":
             ck.add_mutant(name, m, w, "harness.C08", "edit_job", dict(cases=[()]), fresh=True)
         elif w == "ssa":
-            ck.add_mutant(name, m, w, "harness.C05", "step_job", dict(cases=[(2, 2, 2, 0), (2, 2, 2, 1)]))
+            ck.add_mutant(name, m, w, "harness.C05", "step_job", dict(cases=[(2, 2, 2, 0), (2, 2, 2, 1)], facets=["model-untouched", "init"]))
         else:
             ck.add_mutant(name, m, w, "harness.C08", "rng_job", dict(cases=[(1,)]), fresh=True)
     ck.validate = ['rng', 'ssa']
